@@ -6,7 +6,9 @@ import (
 	"errors"
 	"fmt"
 	"reflect"
+	"strings"
 	"sync"
+	"sync/atomic"
 	"testing"
 	"time"
 
@@ -27,8 +29,11 @@ type C03Case struct {
 	Args      []*Node `json:"args"`
 	Outcome   string  `json:"outcome"` // return | exception | error | appex
 	ExcIndex  int     `json:"exc_index"`
-	Ret       *Node   `json:"ret,omitempty"`
-	Exc       *Node   `json:"exc,omitempty"`
+	// BigRet: in the concurrent phase the handler answers every call with its own result of
+	// 70 KB or more (string / binary return types only)
+	BigRet bool  `json:"big_ret,omitempty"`
+	Ret    *Node `json:"ret,omitempty"`
+	Exc    *Node `json:"exc,omitempty"`
 	// Extra argument tuples: the same method is invoked concurrently on the same
 	// client and processor, once per tuple (only with outcome "return")
 	Extra [][]*Node `json:"extra,omitempty"`
@@ -85,7 +90,12 @@ func GenC03(t *rapid.T) C03Case {
 	if c.Outcome == "return" && m.Ret != nil {
 		c.Ret = GenTree(t, p, m.Ret, 1)
 	}
-	if c.Outcome == "return" && !m.Oneway && len(m.Args) > 0 && rapid.IntRange(0, 3).Draw(t, "concurrent?") == 0 {
+	bigCapable := false
+	if m.Ret != nil && p.KindOf(m.Ret) == "base" {
+		n := p.Resolve(m.Ret).Name
+		bigCapable = n == "string" || n == "binary"
+	}
+	if c.Outcome == "return" && !m.Oneway && len(m.Args) > 0 && (rapid.IntRange(0, 3).Draw(t, "concurrent?") == 0 || bigCapable && rapid.Bool().Draw(t, "concurrent.big?")) {
 		for i, n := 0, rapid.IntRange(1, 7).Draw(t, "nextra"); i < n; i++ {
 			var tuple []*Node
 			for _, a := range m.Args {
@@ -94,8 +104,22 @@ func GenC03(t *rapid.T) C03Case {
 			c.Extra = append(c.Extra, tuple)
 		}
 	}
+	if len(c.Extra) > 0 && m.Ret != nil && p.KindOf(m.Ret) == "base" {
+		if n := p.Resolve(m.Ret).Name; n == "string" || n == "binary" {
+			c.BigRet = rapid.IntRange(0, 3).Draw(t, "bigret") != 0
+			if c.BigRet && rapid.IntRange(0, 2).Draw(t, "bigret.tcp") != 0 {
+				c.Transport = "tcp" // one connection, responses read by the adapter transport's loop
+			}
+		}
+	}
 	return c
 }
+
+var (
+	bigPhase, bigSeq int32
+	bigMu            sync.Mutex
+	bigProduced      = map[string]bool{}
+)
 
 func ClassifyC03(c C03Case) ev.Class {
 	sb := Services[c.Service]
@@ -130,6 +154,9 @@ func ClassifyC03(c C03Case) ev.Class {
 	if len(c.Extra) > 0 {
 		labels = append(labels, "concurrent-calls")
 		nt = true
+	}
+	if c.BigRet {
+		labels = append(labels, "concurrent-calls-with-results>=64KiB")
 	}
 	p := Programs[sb.Prog].Model
 	for _, a := range m.Args {
@@ -260,6 +287,10 @@ func checkC03Inner(c C03Case) *ev.Failure {
 		wantExc, excBinding = e, b
 	}
 	var buildErr error
+	bigPhase, bigSeq = 0, 0
+	bigMu.Lock()
+	bigProduced = map[string]bool{}
+	bigMu.Unlock()
 	rec.outcome = func(method string, ret reflect.Type) (interface{}, error) {
 		switch c.Outcome {
 		case "exception":
@@ -271,6 +302,18 @@ func checkC03Inner(c C03Case) *ev.Failure {
 		}
 		if ret == nil || c.Ret == nil {
 			return nil, nil
+		}
+		if c.BigRet && atomic.LoadInt32(&bigPhase) == 1 {
+			// a result of its own for every call, large enough to take the reader's large-frame path
+			n := atomic.AddInt32(&bigSeq, 1)
+			val := fmt.Sprintf("result-of-call-%d-", n) + strings.Repeat(string(rune('a'+n%26)), 70000+int(n)*1111)
+			bigMu.Lock()
+			bigProduced[val] = true
+			bigMu.Unlock()
+			if ret.Kind() == reflect.String {
+				return reflect.ValueOf(val).Convert(ret).Interface(), nil
+			}
+			return reflect.ValueOf([]byte(val)).Convert(ret).Interface(), nil
 		}
 		v, err := FromTree(p, m.Ret, ret, c.Ret)
 		if err != nil {
@@ -415,6 +458,8 @@ func c03Concurrent(c C03Case, sb *ServiceBinding, mb MethodBinding, cm reflect.V
 	outs := make([][]reflect.Value, len(ins))
 	var wg sync.WaitGroup
 	start := make(chan struct{})
+	atomic.StoreInt32(&bigPhase, 1)
+	defer atomic.StoreInt32(&bigPhase, 0)
 	for i := range ins {
 		wg.Add(1)
 		go func(i int) {
@@ -462,6 +507,22 @@ func c03Concurrent(c C03Case, sb *ServiceBinding, mb MethodBinding, cm reflect.V
 	for i, out := range outs {
 		if e := out[len(out)-1]; !e.IsNil() {
 			return ev.Failf("unexpected-error", "%s: concurrent call %d failed: %v%s", what, i, e.Interface(), ctxText())
+		}
+		if m.Ret != nil && c.BigRet {
+			var got string
+			if out[0].Kind() == reflect.String {
+				got = out[0].String()
+			} else {
+				got = string(out[0].Bytes())
+			}
+			bigMu.Lock()
+			ok := bigProduced[got]
+			delete(bigProduced, got)
+			bigMu.Unlock()
+			if !ok {
+				return ev.Failf("return-mismatch:concurrent", "%s: concurrent call %d got a %d byte result (%.40q...) that no handler invocation returned, or that another caller got as well%s", what, i, len(got), got, ctxText())
+			}
+			continue
 		}
 		if m.Ret != nil {
 			got, err := ExpectValue(p, m.Ret, out[0])
